@@ -30,13 +30,23 @@ pub enum Half {
     BinRx(u32, bin::Receiver),
     IoTx(u32, remoc::rch::io::Sender),
     IoRx(u32, remoc::rch::io::Receiver),
+    /// A channel whose items embed a channel half themselves: the port requests of those items travel through
+    /// every endpoint that forwards the outer channel.
+    NestTx(u32, mpsc::Sender<Inner>),
+}
+
+/// Item of a nested channel: carries the channel id and a oneshot sender for the reply.
+#[derive(Serialize, Deserialize)]
+pub struct Inner {
+    pub cid: u32,
+    pub reply: oneshot::Sender<Msg>,
 }
 
 impl Half {
     fn cid(&self) -> u32 {
         match self {
             Half::MpscTx(c, _) | Half::MpscRx(c, _) | Half::OneTx(c, _) | Half::OneRx(c, _) | Half::WatchRx(c, _) | Half::WatchTx(c, _)
-            | Half::BcastRx(c, _) | Half::LrTx(c, _) | Half::LrRx(c, _) | Half::BinTx(c, _) | Half::BinRx(c, _) | Half::IoTx(c, _) | Half::IoRx(c, _) => *c,
+            | Half::BcastRx(c, _) | Half::LrTx(c, _) | Half::LrRx(c, _) | Half::BinTx(c, _) | Half::BinRx(c, _) | Half::IoTx(c, _) | Half::IoRx(c, _) | Half::NestTx(c, _) => *c,
         }
     }
     fn kind(&self) -> &'static str {
@@ -54,6 +64,7 @@ impl Half {
             Half::BinRx(..) => "bin_rx",
             Half::IoTx(..) => "io_tx",
             Half::IoRx(..) => "io_rx",
+            Half::NestTx(..) => "nest_tx",
         }
     }
 }
@@ -73,6 +84,7 @@ pub enum Keep {
     BinTx(u32, bin::Sender),
     IoRx(u32, remoc::rch::io::Receiver),
     IoTx(u32, remoc::rch::io::Sender),
+    NestRx(u32, mpsc::Receiver<Inner>),
 }
 
 #[derive(Serialize, Deserialize)]
@@ -120,7 +132,7 @@ async fn wait<F: std::future::Future>(f: F, _bound: u64) -> Option<F::Output> {
 fn make_half(rng: &mut Rng, cid: u32, allow_lr: bool) -> (Half, Keep) {
     // local/remote (lr) channels cannot be forwarded by design: they only travel over a single connection
     let pick = loop {
-        let p = rng.below(13);
+        let p = rng.below(15);
         if allow_lr || !(p == 7 || p == 8) {
             break p;
         }
@@ -174,9 +186,13 @@ fn make_half(rng: &mut Rng, cid: u32, allow_lr: bool) -> (Half, Keep) {
             let (tx, rx) = if rng.chance(1, 2) { remoc::rch::io::sized(4) } else { remoc::rch::io::channel() };
             (Half::IoTx(cid, tx), Keep::IoRx(cid, rx))
         }
-        _ => {
+        12 => {
             let (tx, rx) = if rng.chance(1, 2) { remoc::rch::io::sized(4) } else { remoc::rch::io::channel() };
             (Half::IoRx(cid, rx), Keep::IoTx(cid, tx))
+        }
+        _ => {
+            let (tx, rx) = mpsc::channel(2);
+            (Half::NestTx(cid, tx), Keep::NestRx(cid, rx))
         }
     }
 }
@@ -253,6 +269,16 @@ async fn use_half(h: Half) {
         Half::BinRx(_, rx) => got_of(wait(bin_recv(rx), WAIT_POLLS).await, |v| v),
         Half::IoTx(c, tx) => got_of(wait(io_send(tx, c), WAIT_POLLS).await, |v| v),
         Half::IoRx(_, rx) => got_of(wait(io_recv(rx), WAIT_POLLS).await, |v| v),
+        Half::NestTx(c, tx) => {
+            // send an item that embeds a oneshot sender through the (possibly forwarded) channel, wait for the reply
+            let (rtx, rrx) = oneshot::channel();
+            let r = async move {
+                tx.send(Inner { cid: c, reply: rtx }).await.map_err(|_| ())?;
+                let m = rrx.await.map_err(|_| ())?;
+                Ok::<i64, ()>(m.cid as i64)
+            };
+            got_of(wait(r, WAIT_POLLS).await, |v| v)
+        }
     };
     tr(json!({"ev": "h_use", "cid": cid, "kind": kind, "got": got}));
 }
@@ -294,6 +320,15 @@ async fn serve_keep(k: Keep) {
         Keep::BinTx(c, tx) => (c, got_of(wait(bin_send(tx, c), WAIT_POLLS).await, |v| v)),
         Keep::IoRx(c, rx) => (c, got_of(wait(io_recv(rx), WAIT_POLLS).await, |v| v)),
         Keep::IoTx(c, tx) => (c, got_of(wait(io_send(tx, c), WAIT_POLLS).await, |v| v)),
+        Keep::NestRx(c, mut rx) => {
+            let r = async move {
+                let inner = rx.recv().await.map_err(|_| ())?.ok_or(())?;
+                let got = inner.cid;
+                inner.reply.send(Msg { cid: got, n: 1 }).map_err(|_| ())?.await.map_err(|_| ())?;
+                Ok::<i64, ()>(got as i64)
+            };
+            (c, got_of(wait(r, WAIT_POLLS).await, |v| v))
+        }
     };
     tr(json!({"ev": "h_peer", "cid": cid, "got": got}));
 }
